@@ -53,7 +53,7 @@ func (P) Describe() harness.Description {
 	return harness.Description{
 		MustHit: []string{"undecodable_payload", "payload_with_null_element", "empty_payload", "identical_redelivery", "redelivery_keeps_controller_state", "file_event_delivered", "file_event_duplicated", "file_removed", "file_renamed", "file_converged"},
 		Level:   "exploration",
-		Rule: "case = (table of rule specifications for the five parsers: valid, field-wise invalid, never-blocking / always-blocking; 5-30 deliveries to property handlers wired to the REAL rule managers: the wire-format JSON of a rule list, the same with a null element, a wrongly typed element, truncated at a drawn byte, empty, 'null', an object instead of an array; immediate identical redelivery; probes). " +
+		Rule: "case = (table of rule specifications for the five parsers: valid, field-wise invalid, never-blocking / always-blocking; 5-30 deliveries to property handlers wired to the REAL rule managers: the wire-format JSON of a rule list, the same with a null element, a wrongly typed element, truncated at a drawn byte, followed by trailing bytes (a second document, a stray bracket, the tail of an older file), empty, 'null', an object instead of an array; immediate identical redelivery; probes). " +
 			"Oracle: Handle never panics out; undecodable => error returned and the previous rules stay in force; decodable => exactly its valid rules are reported, field for field (wire round trip), and govern probe traffic; empty => cleared; identical redelivery => nothing changes, including controller state (a private-window flow rule keeps its count). " +
 			"File source (40% of runs): a real RefreshableFileDataSource on a scratch file with the stub watcher; ops write / truncate / rename / remove; the simulator delivers each file-system event delayed, duplicated or coalesced; after quiescence following the last delivered event the managers equal the file's content (previous rules if undecodable), and are empty after remove / rename. " +
 			"non-trivial = a good payload, an undecodable one and a redelivery occurred in one run; distinct = hash(config, ops)",
@@ -100,7 +100,7 @@ func (P) Gen(rng *sim.Rng, tier string) *harness.Case {
 		case 0:
 			mangle := 0
 			if rng.Chance(0.45) {
-				mangle = rng.Range(1, 8)
+				mangle = rng.Range(1, 10)
 			}
 			ops = append(ops, harness.Op{K: "deliver", R: m, A: pick(m), N: uint64(mangle), E: rng.Intn(10000)})
 		case 1:
@@ -119,7 +119,7 @@ func (P) Gen(rng *sim.Rng, tier string) *harness.Case {
 				default:
 					mangle := 0
 					if rng.Chance(0.35) {
-						mangle = rng.Range(1, 8)
+						mangle = rng.Range(1, 10)
 					}
 					ops = append(ops, harness.Op{K: "fwrite", A: pick(cfg.FileM), N: uint64(mangle), E: rng.Intn(10000), F: rng.Chance(0.7)})
 				}
@@ -230,6 +230,9 @@ func mangle(m int, b []byte, kind uint64, seed int) ([]byte, bool, bool) { // pa
 		return []byte("{}"), false, false
 	case 7:
 		return []byte(" "), false, false
+	case 9, 10: // a complete array followed by more bytes (a second document, a stray bracket, the tail of an older, longer file)
+		tails := []string{"]", "}", " []", "x", ",", string(b), "\n{\"resource\":\"r\"}]"}
+		return append(append([]byte{}, b...), []byte(tails[seed%len(tails)])...), false, false
 	case 8: // wrongly typed field inside an element
 		if m == rs.System {
 			return []byte(`[{"triggerCount": "x"}]`), false, false
